@@ -103,6 +103,16 @@ def exhaustive(tier):
             for side in ("min", "max"):
                 for v in vals:
                     yield {"spec": {"kind": kind, "req": False, "opts": {side: b}, "validator": None}, "value": v}
+    # URL syntax: a scheme is required (a host alone is not a URL)
+    for v in ("//host/path", "//cdn.example.com/lib.js", "//h", "http://h.example/p", "https://h.example:8080/p?q=1", "ftp://h", "example.com", "/path", "://x", "1http://x",
+              "//", "///x", "", "h.example/p", "?q=1", "#frag", "http:/", "HTTP://H.EXAMPLE/"):
+        yield {"spec": {"kind": "url", "req": False, "opts": {}, "validator": None}, "value": v}
+    # values of a proper subclass of int / float / str (enum members, unit-carrying floats, tagged strings) are numbers /
+    # strings like any other: inside, on and outside the bounds
+    for kind, opts in (("int", {"min": 0, "max": 10}), ("int", {}), ("float", {"min": 0.5, "max": 10}), ("float", {}), ("port", {}), ("port", {"max": 80})):
+        for raw in ("intenum:5", "intenum:10", "intenum:11", "intenum:0", "intenum:80", "intenum:81", "intenum:70000", "intsub:5", "intsub:-1", "intsub:70000",
+                    "floatsub:5.0", "floatsub:0.5", "floatsub:0.25", "floatsub:10.5", "floatsub:80.0", "strsub:5", "strsub:11", "strsub:0.5", "strsub:x", "strsub: 7 "):
+            yield {"spec": {"kind": kind, "req": False, "opts": opts, "validator": None}, "value": specs.Opaque(raw)}
     # every spelling of the case option (it is accepted case-insensitively) x cased text x options that look at the result
     for spelling in ("lower", "Lower", "LOWER", "lOwEr", "upper", "Upper", "UPPER", "uPPer"):
         for extra in ({}, {"choices": ["abc", "x"]}, {"choices": ["ABC", "X"]}, {"regex": "^[a-z]+$"}, {"regex": "^[A-Z]+$"}):
